@@ -92,6 +92,33 @@ def _sized_run(entry, pkmod, src, r, k, expected):
     return {"got": [x.hex() for x in got[:6]], "n_got": len(got), "end": end}
 
 
+def _sized_run_touched(entry, pkmod, src, r, k, expected, touch):
+    """File sources: take exactly the packets the stream holds, then the caller closes or rewinds its file object, then asks once more: the
+    framer knows the length of a file source and has handed out all of it, so it stops - it yields nothing after the last packet."""
+    g = _make_gen(entry, pkmod, src, r, k)
+    got = []
+    try:
+        for _ in expected:
+            got.append(bytes(next(g)))
+    except StopIteration:
+        return {"got": [x.hex() for x in got[:6]], "n_got": len(got), "end": "stopped early"}
+    except Exception as e:  # noqa: BLE001
+        return {"got": [x.hex() for x in got[:6]], "n_got": len(got), "end": f"raised {type(e).__name__}"}
+    if got != list(expected):
+        return {"got": [x.hex() for x in got[:6]], "n_got": len(got), "end": "wrong packets"}
+    if touch == "close":
+        src.close()
+    else:
+        src.seek(0)
+    try:
+        extra = next(g)
+    except StopIteration:
+        return None
+    except Exception as e:  # noqa: BLE001
+        return {"n_got": len(got), "end": f"after the last packet: raised {type(e).__name__}: {str(e)[:80]}"}
+    return {"n_got": len(got) + 1, "end": "after the last packet: yielded " + bytes(extra).hex()[:40]}
+
+
 def _socket_drive(entry, pkmod, r, k, n_expected):
     def drive(sock, on_item):
         g = _make_gen(entry, pkmod, sock, r, k)
@@ -204,6 +231,34 @@ def _task(task):
                             t.violation({"kind": "framing-mismatch", "source": kind},
                                         {**base, "source": kind, "r": r},
                                         expected=[p.hex() for p in expected], observed=bad)
+                # (b") the caller takes exactly the packets of the file, closes (or rewinds) its file object, and asks once more
+                if expected:
+                    for r in (None, 1, 7, L + 1):
+                        for kind in ("bytesio", "file"):
+                            for touch in ("close", "rewind"):
+                                try:
+                                    with case_alarm(20):
+                                        if kind == "bytesio":
+                                            bad = _sized_run_touched(entry, pkmod, CountingBytesIO(stream), r, k, expected, touch)
+                                        else:
+                                            path = os.path.join(task["work"], f"c02_{os.getpid()}.bin")
+                                            with open(path, "wb") as f:
+                                                f.write(stream)
+                                            src = open(path, "rb")
+                                            try:
+                                                bad = _sized_run_touched(entry, pkmod, src, r, k, expected, touch)
+                                            finally:
+                                                src.close()
+                                                os.unlink(path)
+                                except CaseTimeout:
+                                    bad = {"end": "timeout"}
+                                t.evals += 1
+                                t.traces += 1
+                                t.outcomes["sized:" + ("ok" if bad is None else "mismatch")] += 1
+                                if bad:
+                                    t.violation({"kind": "touches-source-after-last-packet", "source": kind, "touch": touch},
+                                                {**base, "source": kind, "r": r, "touch": touch},
+                                                expected=[p.hex() for p in expected] + ["then StopIteration"], observed=bad)
                 # (b') other members of the file family: a gzip file object and a BufferedReader over a raw stream that answers every raw
                 # read with at most 3 bytes (both are io.BufferedIOBase, which is what the framer asks for)
                 if thr is None:
@@ -485,7 +540,7 @@ def run(ctx):
         "exhaustive": True,
         "bound": (f"all sequences of <= {max_len} packets over a 3-packet palette (data lengths 1, 2, 5), prefix lengths "
                   f"{'0,1,4' if ctx.quick else '0..7'}; bytes; BytesIO and real file with every read size None,1..L+1; a gzip file object and a BufferedReader over a raw stream "
-                  "delivering <= 3 bytes per raw read, read sizes None,1,7,L+1; "
+                  "delivering <= 3 bytes per raw read, read sizes None,1,7,L+1; BytesIO and real file that the caller closes / rewinds after taking exactly the packets they hold, then one more request (read sizes None,1,7,L+1, every trim literal); "
                   "scripted socket with read sizes {None,1,2,3,5,6,7,8,L} x EVERY fragmentation (state-hashed DFS; also: no recv() while a complete record is delivered and unyielded); "
                   "both entry points; trim literal rewritten to {0,5,17} and reached for real with a 21 MB stream; "
                   "max-size packet; stateless cross-check of the state merging on short streams; sized sources (bytes, BytesIO with 5 read sizes) additionally on "
@@ -542,6 +597,11 @@ def replay(case):
             if oa != ob:
                 return {"sig": {"kind": "source-kinds-disagree", "history": "file-like source handed over at a non-zero position"},
                         "case": case, "observed": {"bytesio": oa, "file": ob}}
+            return None
+        if case.get("touch"):
+            bad = _sized_run_touched(entry, pkmod, CountingBytesIO(stream), case.get("r"), k, expected, case["touch"])
+            if bad:
+                return {"sig": {"kind": "touches-source-after-last-packet", "source": src_kind, "touch": case["touch"]}, "case": case, "observed": bad}
             return None
         if src_kind in ("bytes", "bytesio", "file", "gzip", "buffered-over-short-raw"):
             src = stream if src_kind == "bytes" else _file_family(src_kind, stream) if src_kind in ("gzip", "buffered-over-short-raw") else CountingBytesIO(stream)
